@@ -941,6 +941,19 @@ class VhdlScope:
 
         raise AssertionError(f"cannot format {obj}")
 
+    @staticmethod
+    def _check_enumerators(type_name, enumerators):
+        # enumeration literals are printed verbatim
+        reserved = ModuleScope._vhdl_reserved | ModuleScope._additional_reserved
+
+        for name in enumerators:
+            assert re.fullmatch(
+                "[A-Za-z](_?[A-Za-z0-9])*", name
+            ), f"enumerator '{name}' of '{type_name}' is not a legal VHDL identifier"
+            assert (
+                name.lower() not in reserved
+            ), f"enumerator '{name}' of '{type_name}' is reserved in VHDL"
+
     def format_declaration(self, name, obj) -> str:
         if isinstance(self, ProcessScope):
             is_signal = isinstance(obj, Signal)
@@ -960,9 +973,11 @@ class VhdlScope:
         if isinstance(obj, type):
             if issubclass(obj, cohdl_enum.Enum):
                 enumerators = list(obj.__members__.keys())
+                self._check_enumerators(name, enumerators)
                 return f"type {name} is ({', '.join(enumerators)});"
             elif issubclass(obj, cohdl_enum.DynamicEnum):
                 enumerators = [member.name for member in obj.__members__]
+                self._check_enumerators(name, enumerators)
                 return f"type {name} is ({', '.join(enumerators)});"
             elif issubclass(obj, cohdl.Array):
                 elemtype = obj._elemtype_
